@@ -2,7 +2,7 @@ import PPProofs.Props.C19
 #print axioms PP.Settings.restore_exact
 #print axioms PP.Settings.restore_total_and_exact
 #print axioms PP.Settings.live_restore_total_and_exact
-#print axioms PP.Settings.builtins_unsynced_not_restored
+#print axioms PP.Settings.live_builtins_restored_though_unsynced
 #print axioms PP.Settings.packrat_lr_exclusive
 #print axioms PP.Settings.packrat_lr_never_both
 #print axioms PP.Settings.live_packrat_lr_never_both
